@@ -193,15 +193,21 @@ func (index *SourceIndex) GetBuildDependsIndep() dependency.Dependency {
 // Given a reader, parse out a list of BinaryIndex structs.
 func ParseBinaryIndex(reader *bufio.Reader) (ret []BinaryIndex, err error) {
 	ret = []BinaryIndex{}
-	err = Unmarshal(&ret, reader)
-	return ret, err
+	if err = Unmarshal(&ret, reader); err != nil {
+		/* Don't hand out the stanzas decoded before the broken one. */
+		return nil, err
+	}
+	return ret, nil
 }
 
 // Given a reader, parse out a list of SourceIndex structs.
 func ParseSourceIndex(reader *bufio.Reader) (ret []SourceIndex, err error) {
 	ret = []SourceIndex{}
-	err = Unmarshal(&ret, reader)
-	return ret, err
+	if err = Unmarshal(&ret, reader); err != nil {
+		/* Don't hand out the stanzas decoded before the broken one. */
+		return nil, err
+	}
+	return ret, nil
 }
 
 // vim: foldmethod=marker
